@@ -15,6 +15,8 @@ STATUSES = ["clean", " M", "M ", "MM", "A ", "AM", " D", "D ", "R ", "R>", "RM",
 # only for the unrelated role: a git submodule whose pointer moved (unstaged / staged)
 SUB_STATUSES = ["sub: M", "sub:M "]
 ROLES = ["pattern", "unrelated"]
+# hg: M modified, A added, R removed, ! missing, ? not tracked
+HG_STATUSES = ["clean", "M", "A", "R", "!", "?"]
 
 SPEC = dict(
     level="exploration",
@@ -27,7 +29,7 @@ SPEC = dict(
                  "committed by `git commit` by design and are not asserted",
                  "a run is expected to proceed only when no pattern file is dirty (and the tree is clean or "
                  "--allow-dirty is given)"],
-    required=["submodule_cases", "dot_git_is_a_file_cases", "aborts_checked", "proceeds_checked", "pattern_file_dirty_with_allow_dirty", "untracked_unrelated_not_blocking",
+    required=["submodule_cases", "quoted_names_in_porcelain_output", "dot_git_is_a_file_cases", "hg_status_cases", "aborts_checked", "proceeds_checked", "pattern_file_dirty_with_allow_dirty", "untracked_unrelated_not_blocking",
               "bump_commit_content_checked"],
     anchors=[("vcs", "assert_not_dirty"), ("cli", "_update")],
     exhaustive={"quick": True, "thorough": True},
@@ -44,6 +46,9 @@ LAYOUTS = [
      "args": ["--patch"]},
     {"pfile": "src/pkg/version.py", "cfg_spelling": "./src//pkg/version.py", "ufile": "docs/notes.md",
      "vp": "MAJOR.MINOR.PATCH", "cur": "0.9.9", "args": ["--minor"]},
+    # names git prints QUOTED in its porcelain output (space, non-ASCII, a double quote)
+    {"pfile": "release notes.txt", "ufile": "other file.txt", "vp": "MAJOR.MINOR.PATCH", "cur": "1.2.3", "args": ["--patch"]},
+    {"pfile": "docs/gr\u00fc\u00dfe.md", "ufile": "\u00fcbrig.txt", "vp": "MAJOR.MINOR.PATCH", "cur": "1.2.3", "args": ["--patch"]},
 ]
 
 
@@ -55,7 +60,7 @@ def cases(ctx):
             if rep > 0 and li != rep % len(LAYOUTS):
                 continue
             if rep == 0 and li in (1, 2) and ctx.quick:
-                # quick: the full product on layouts 0, 3, 4; layouts 1, 2 only in thorough
+                # quick: the full product on layouts 0, 3, 4, 5, 6; layouts 1, 2 only in thorough
                 continue
             for st in STATUSES:
                 for role in ROLES:
@@ -75,6 +80,14 @@ def cases(ctx):
                                     yield {"layout": li, "p_status": st if role == "pattern" else "clean", "repo": repo,
                                            "u_status": st if role == "unrelated" else "clean", "allow": allow, "rep": rep}
                                 k += 1
+            if li == 0:
+                # the hg command set: status letters as `hg status -umard` prints them, served by the fake hg
+                for st in HG_STATUSES:
+                    for role in ROLES:
+                        for allow in (False, True):
+                            if ctx.mine(k):
+                                yield {"kind": "hg", "status": st, "role": role, "allow": allow, "rep": rep}
+                            k += 1
             for st in SUB_STATUSES:
                 for allow in (False, True):
                     for ps in ("clean", " M"):
@@ -133,7 +146,53 @@ def make_status(d, rel, status, content):
     # 'A ', 'AM', '??', 'R>' are prepared before the initial commit (see run_case)
 
 
+def run_hg(ctx, case):
+    """Mercurial is not installed: the status text is served by the fake hg (format of `hg status -umard`:
+    one status letter, a space, the path); add/commit are only recorded."""
+    st, role, allow = case["status"], case["role"], case["allow"]
+    pfile, ufile = "a.txt", "other.txt"
+    cfg = ('[bumpver]\ncurrent_version = "1.2.3"\nversion_pattern = "MAJOR.MINOR.PATCH"\ncommit = true\ntag = false\n'
+           'push = false\n\n[bumpver.file_patterns]\n"bumpver.toml" = [\'current_version = "{version}"\']\n'
+           '"a.txt" = ["version {version}"]\n')
+    d = harness.new_project({"bumpver.toml": cfg, pfile: "intro\nversion 1.2.3\n", ufile: "unrelated\n"})
+    fake = harness.FakeVCS(d, "hg")
+    try:
+        target = pfile if role == "pattern" else ufile
+        fake.set_out("status", "" if st == "clean" else f"{st} {target}\n")
+        before = harness.snapshot(d)
+        args = ["update", "--no-fetch", "--patch"] + (["--allow-dirty"] if allow else [])
+        res = harness.invoke(args, cwd=d, env=fake.env)
+        after = harness.snapshot(d)
+        muts = [m for m in map(harness.mutating_kind, fake.events()) if m]
+        if st == "clean":
+            expect = "proceed"
+        elif role == "pattern":
+            expect = "abort"
+        elif st == "?":
+            expect = "proceed"        # untracked files that carry no pattern never block an update
+        else:
+            expect = "proceed" if allow else "abort"
+        ctx.count("hg_status_cases")
+        ctx.evaluated(("hg", st, role, allow, expect), sample={"status_line": f"{st} {target}", "argv": args, "expected": expect})
+        desc = {"hg_status": f"{st} {target}", "argv": args, "expected": expect, "res": res.brief(), "vcs_calls": muts}
+        changed = harness.diff_snapshots(before, after)
+        if expect == "abort":
+            if res.exit_code == 0 or changed or "commit" in muts:
+                ctx.violation("other:dirty_tree_not_respected", f"hg: status {st!r} of the {role} file, allow-dirty={allow}: "
+                              f"expected abort before any change, got exit {res.exit_code}, changed {changed}, calls {muts}",
+                              case=case, observed=desc)
+        elif res.exit_code != 0 or "commit" not in muts:
+            ctx.violation("other:update_blocked_unexpectedly", f"hg: status {st!r} of the {role} file, allow-dirty={allow}: "
+                          f"expected the update to proceed, got exit {res.exit_code}: {res.errors()[-2:]}", case=case,
+                          observed=desc)
+    finally:
+        harness.rm_dir(d)
+        fake.destroy()
+
+
 def run_case(ctx, case):
+    if case.get("kind") == "hg":
+        return run_hg(ctx, case)
     lay = LAYOUTS[case["layout"]]
     ps, us, allow = case["p_status"], case["u_status"], case["allow"]
     pfile, ufile = lay["pfile"], lay["ufile"]
@@ -208,12 +267,13 @@ def run_case(ctx, case):
         else:
             make_status(d, ufile, us, ucontent)
         porcelain = git(d, "status", "--porcelain")
+        entries = git(d, "status", "--porcelain", "-z").split("\0")     # names unquoted
         want_codes = []
         for rel, st in ((pfile, ps), (ufile, us)):
             if st == "clean":
                 continue
             code = {"R>": "R ", "RM>": "RM", "RD>": "RD", "sub: M": " M", "sub:M ": "M "}.get(st, st)
-            hit = [ln for ln in porcelain.splitlines() if ln[:2] == code and rel in ln]
+            hit = [ln for ln in entries if ln[:2] == code and rel in ln]
             if not hit:
                 raise harness.Skip(f"scenario-not-reproduced:{st}")
         before = harness.snapshot(d)
@@ -237,6 +297,8 @@ def run_case(ctx, case):
             ctx.count("submodule_cases")
         if p_dirty and allow:
             ctx.count("pattern_file_dirty_with_allow_dirty")
+        if '"' in porcelain:
+            ctx.count("quoted_names_in_porcelain_output")
         if us == "??" and ps == "clean":
             ctx.count("untracked_unrelated_not_blocking")
         if expect == "abort":
@@ -246,6 +308,8 @@ def run_case(ctx, case):
                 cls = "other:dirty_tree_not_respected"
                 if p_dirty and allow and (ps[0] == " " or ps in ("MM", "AM", "R>", "RM>", "RD>", "RM")):
                     cls = "porcelain_status_column_misparsed"
+                if p_dirty and allow and any(ln.endswith('"') and pfile.split("/")[-1][:3] in ln for ln in porcelain.splitlines()):
+                    cls = "quoted_path_in_status_output"
                 ctx.violation(cls, f"pattern file status {ps!r}, unrelated {us!r}, allow-dirty={allow}: expected abort "
                               f"before any change, got exit {res.exit_code}, changed files {changed}, commits "
                               f"{n_before}->{n_after}", case=case, observed=desc)
@@ -256,7 +320,7 @@ def run_case(ctx, case):
                           f"expected the update to proceed, got exit {res.exit_code}, commits {n_before}->{n_after}: "
                           f"{res.errors()[-3:]}", case=case, observed=desc)
             return
-        names = sorted(x for x in git(d, "show", "--name-only", "--format=", "HEAD").splitlines() if x)
+        names = sorted(x for x in git(d, "show", "--name-only", "--format=", "-z", "HEAD").split("\0") if x.strip())
         configured = sorted(["bumpver.toml", pfile])
         if us in ("clean", " M", " D", "??", "sub: M"):
             ctx.count("bump_commit_content_checked")
